@@ -53,7 +53,10 @@ pub fn ref_grammar_hash_ext(text: &str) -> (Option<&str>, Option<&str>) {
 }
 
 fn kiki_hash(text: &str) -> Result<Option<String>, String> {
-    catch(|| kiki::get_grammar_hash(kiki::RustSrcRef(text)).map(|s| s.to_string()))
+    note_current_input(Some(text));
+    let r = catch(|| kiki::get_grammar_hash(kiki::RustSrcRef(text)).map(|s| s.to_string()));
+    note_current_input(None);
+    r
 }
 
 pub fn c15_judge_header(text: &str) -> Result<(), Failure> {
